@@ -36,6 +36,7 @@ const (
 )
 
 var errC07Injected = errors.New("c07 injected write failure")
+var errC07Read = errors.New("c07 injected read failure")
 
 // c07DB wraps the real backend; while armed every read-write transaction runs
 // its closure and is then rolled back with an error (a failed commit).
@@ -59,12 +60,22 @@ func (d *c07DB) Update(f func(tx kvdb.RwTx) error, reset func()) error {
 }
 
 // c07Store answers only RemoteCommitChainTip (used by NextLocalHtlcIndex).
+// reads/failAt: fault injection, the failAt-th read (1-based, counted over all
+// stores sharing the counter) returns a storage error.
 type c07Store struct {
 	chanstate.Store
 	pendingIdx int64 // -1: no pending commit
+	reads      *int
+	failAt     int
 }
 
 func (s *c07Store) RemoteCommitChainTip(*chanstate.OpenChannel) (*chanstate.CommitDiff, error) {
+	if s.reads != nil {
+		*s.reads++
+		if *s.reads == s.failAt {
+			return nil, errC07Read
+		}
+	}
 	if s.pendingIdx < 0 {
 		return nil, chanstate.ErrNoPendingCommit
 	}
@@ -87,6 +98,7 @@ type c07Env struct {
 	closed []c07Closed
 	active []c07Active
 	res    map[CircuitKey]bool
+	fail   int // k > 0: the k-th RemoteCommitChainTip read of this start fails
 }
 
 type c07 struct {
@@ -103,6 +115,7 @@ type c07 struct {
 	sw     *Switch
 	env    c07Env
 	nlines int
+	univ   []CircuitKey // key universe of the snapshots (default: c07Universe)
 
 	// mailbox stream
 	mo      *mailOrchestrator
@@ -167,6 +180,8 @@ func c07Err(err error) string {
 		return "ok"
 	case errors.Is(err, errC07Injected):
 		return "wferr"
+	case errors.Is(err, errC07Read):
+		return "rderr"
 	case errors.Is(err, ErrDuplicateKeystone):
 		return "dupks"
 	case errors.Is(err, ErrUnknownCircuit):
@@ -191,11 +206,12 @@ func (c *c07) config() *CircuitMapConfig {
 		DB: backend,
 		FetchAllOpenChannels: func() ([]*chanstate.OpenChannel, error) {
 			var res []*chanstate.OpenChannel
+			reads := new(int)
 			for _, a := range c.env.active {
 				res = append(res, &chanstate.OpenChannel{
 					ShortChannelID: lnwire.NewShortChanIDFromInt(uint64(a.ch)),
 					IsPending:      a.pending,
-					Db:             &c07Store{pendingIdx: a.pendingIdx},
+					Db:             &c07Store{pendingIdx: a.pendingIdx, reads: reads, failAt: c.env.fail},
 					RemoteCommitment: chanstate.ChannelCommitment{
 						LocalHtlcIndex: a.remoteIdx,
 					},
@@ -290,35 +306,8 @@ func c07Circ(pc *PaymentCircuit) string {
 	return c07ks(pc.Incoming) + "/" + out + "/" + l
 }
 
-func (c *c07) snap() {
-	u := c07Universe()
-	var p, o, cl, a, k []string
-	for _, key := range u {
-		if pc := c.cm.LookupCircuit(key); pc != nil {
-			p = append(p, c07ks(key)+"/"+c07Circ(pc))
-		}
-	}
-	for _, key := range u {
-		if pc := c.cm.LookupOpenCircuit(key); pc != nil {
-			same := "0"
-			if c.cm.LookupCircuit(pc.Incoming) == pc {
-				same = "1"
-			}
-			o = append(o, c07ks(key)+"/"+c07Circ(pc)+"/"+same)
-		}
-	}
-	c.cm.mtx.RLock()
-	var ckeys []CircuitKey
-	for key := range c.cm.closed {
-		ckeys = append(ckeys, key)
-	}
-	rawP, rawO := len(c.cm.pending), len(c.cm.opened)
-	c.cm.mtx.RUnlock()
-	c07SortKeys(ckeys)
-	for _, key := range ckeys {
-		cl = append(cl, c07ks(key))
-	}
-	// both disk buckets, read through the real (unwrapped) backend
+// dumpDisk lists both disk buckets, read through the real (unwrapped) backend.
+func (c *c07) dumpDisk() (a, k []string) {
 	err := kvdb.View(c.inner, func(tx kvdb.RTx) error {
 		ab := tx.ReadBucket(circuitAddKey)
 		kb := tx.ReadBucket(circuitKeystoneKey)
@@ -358,6 +347,41 @@ func (c *c07) snap() {
 	if err != nil {
 		a, k = []string{"dumperr"}, []string{"dumperr"}
 	}
+	return a, k
+}
+
+func (c *c07) snap() {
+	u := c.univ
+	if u == nil {
+		u = c07Universe()
+	}
+	var p, o, cl, a, k []string
+	for _, key := range u {
+		if pc := c.cm.LookupCircuit(key); pc != nil {
+			p = append(p, c07ks(key)+"/"+c07Circ(pc))
+		}
+	}
+	for _, key := range u {
+		if pc := c.cm.LookupOpenCircuit(key); pc != nil {
+			same := "0"
+			if c.cm.LookupCircuit(pc.Incoming) == pc {
+				same = "1"
+			}
+			o = append(o, c07ks(key)+"/"+c07Circ(pc)+"/"+same)
+		}
+	}
+	c.cm.mtx.RLock()
+	var ckeys []CircuitKey
+	for key := range c.cm.closed {
+		ckeys = append(ckeys, key)
+	}
+	rawP, rawO := len(c.cm.pending), len(c.cm.opened)
+	c.cm.mtx.RUnlock()
+	c07SortKeys(ckeys)
+	for _, key := range ckeys {
+		cl = append(cl, c07ks(key))
+	}
+	a, k = c.dumpDisk()
 	c.pf("snap np=%d no=%d rp=%d ro=%d P=%s O=%s C=%s A=%s K=%s",
 		c.cm.NumPending(), c.cm.NumOpen(), rawP, rawO,
 		c07Join(p), c07Join(o), c07Join(cl), c07Join(a), c07Join(k))
@@ -616,28 +640,64 @@ func (c *c07) opRestart(env c07Env) {
 	c.inner.Close()
 	c.openDB()
 	res := c.newMap()
-	c.pf("restart closed=%s active=%s res=%s => %s", c07Join(cl), c07Join(ac), c07KeyList(rk), res)
+	fl := "-"
+	if env.fail > 0 {
+		fl = strconv.Itoa(env.fail)
+	}
+	c.pf("restart closed=%s active=%s res=%s fail=%s => %s", c07Join(cl), c07Join(ac), c07KeyList(rk), fl, res)
+	if res == "rderr" && env.fail > 0 {
+		// the start was aborted by the injected read failure: dump what it
+		// left on disk, then start again without the fault
+		a, k := c.dumpDisk()
+		c.pf("dsnap A=%s K=%s", c07Join(a), c07Join(k))
+		c.nextIdxLines(env, true)
+		env.fail = 0
+		c.opRestart(env)
+		return
+	}
 	if res != "ok" {
 		c.t.Fatalf("restart failed: %s", res)
 	}
-	// the link side of NextLocalHtlcIndex is checked on its own as well
-	for _, x := range env.active {
-		oc := &chanstate.OpenChannel{
-			Db:               &c07Store{pendingIdx: x.pendingIdx},
-			RemoteCommitment: chanstate.ChannelCommitment{LocalHtlcIndex: x.remoteIdx},
-		}
-		n, err := oc.NextLocalHtlcIndex()
-		p := "-"
-		if x.pendingIdx >= 0 {
-			p = strconv.FormatInt(x.pendingIdx, 10)
-		}
-		r := strconv.FormatUint(n, 10)
-		if err != nil {
-			r = "err"
-		}
-		c.pf("nextidx %d %s => %s", x.remoteIdx, p, r)
-	}
+	c.nextIdxLines(env, env.fail > 0 || c.p(15))
 	c.snap()
+}
+
+// nextIdxLines checks the link side of NextLocalHtlcIndex on its own, also
+// with a failing read of the pending remote commitment.
+func (c *c07) nextIdxLines(env c07Env, withFault bool) {
+	for _, x := range env.active {
+		for _, fault := range []bool{false, true} {
+			if fault && !withFault {
+				continue
+			}
+			st := &c07Store{pendingIdx: x.pendingIdx}
+			if fault {
+				st.reads, st.failAt = new(int), 1
+			}
+			oc := &chanstate.OpenChannel{
+				Db:               st,
+				RemoteCommitment: chanstate.ChannelCommitment{LocalHtlcIndex: x.remoteIdx},
+			}
+			r := ""
+			func() {
+				defer func() {
+					if rec := recover(); rec != nil {
+						r = "panic"
+					}
+				}()
+				n, err := oc.NextLocalHtlcIndex()
+				r = strconv.FormatUint(n, 10)
+				if err != nil {
+					r = "err"
+				}
+			}()
+			p := "-"
+			if x.pendingIdx >= 0 {
+				p = strconv.FormatInt(x.pendingIdx, 10)
+			}
+			c.pf("nextidx %d %s fail=%d => %s", x.remoteIdx, p, c07b(fault), r)
+		}
+	}
 }
 
 // ---------------------------------------------------------------- generator
@@ -952,6 +1012,23 @@ func (c *c07) genRestart(disciplined bool) {
 	if c.p(20) {
 		env.res[c.randKey()] = true
 	}
+	if c.p(14) {
+		// fault class: a read of a pending remote commitment fails during the
+		// startup trim. Most of the time the live channels carry a signed,
+		// not yet revoked commitment that covers all their open keystones,
+		// while the last revoked one covers only some of them.
+		env.fail = 1 + c.rng.Intn(len(env.active)+1)
+		for i := range env.active {
+			a := &env.active[i]
+			ids := c.openedIdsOn(a.ch)
+			if len(ids) == 0 || !c.p(75) {
+				continue
+			}
+			lo, hi := ids[0], ids[len(ids)-1]
+			a.remoteIdx = uint64(lo + c.rng.Intn(hi-lo+1))
+			a.pendingIdx = int64(hi + 1)
+		}
+	}
 	c.opRestart(env)
 }
 
@@ -1066,6 +1143,25 @@ func (c *c07) scripted() {
 	e2 := noEnv()
 	e2.closed = []c07Closed{{ch: 2}, {ch: 1, pending: true}}
 	c.opRestart(e2)
+	c.endCase()
+
+	// a failing read of the pending remote commitment during the startup trim:
+	// the commitment carries 2.1 and 2.2, the revoked one only 2.0
+	c.startCase("script-tipfault", false)
+	c.snap()
+	c.opCommit([]CircuitKey{k(1, 0), k(1, 1), k(1, 2), k(1, 3)}, false)
+	c.opOpen([]Keystone{
+		{InKey: k(1, 0), OutKey: k(2, 0)}, {InKey: k(1, 1), OutKey: k(2, 1)},
+		{InKey: k(1, 2), OutKey: k(2, 2)}, {InKey: k(1, 3), OutKey: k(2, 3)},
+	}, false)
+	ef := noEnv()
+	ef.active = []c07Active{{ch: 1, remoteIdx: 0, pendingIdx: -1}, {ch: 2, remoteIdx: 1, pendingIdx: 3}}
+	ef.fail = 2
+	c.opRestart(ef)
+	c.opCommit([]CircuitKey{k(1, 1), k(1, 2), k(1, 3)}, false)
+	c.opClose(k(2, 2))
+	ef.fail = 1
+	c.opRestart(ef)
 	c.endCase()
 
 	// rollback on write failure
